@@ -79,3 +79,7 @@ func Spec(tier string, seed int64, workers int) scripteng.Spec {
 func Run(tier string, seed int64, workers int) int { return scripteng.Run(Spec(tier, seed, workers)) }
 
 func Replay(rp *evidence.Replay) int { return scripteng.Replay(Spec("quick", rp.Seed, 1), rp) }
+
+func Digest(seed int64, workers, n, k int) (string, error) {
+	return scripteng.Digest(Spec("quick", seed, workers), n, k)
+}
